@@ -1803,10 +1803,25 @@ def _quant(it, e, env, universal):
         lam = fv.node
         env = fv.env if fv.env is not None else env
     names = [a.arg for a in lam.args.args]
-    sorts = {'i': z3.IntSort(), 's': z3.StringSort()}
     cenv = Env(parent=env)
     consts = []
     guard = []
+    qd = getattr(it, 'quant_depth', 0)
+    it.quant_depth = qd + 1
+    try:
+        return _quant_body(it, e, env, universal, args, lam, names, cenv, consts, guard, qd)
+    finally:
+        it.quant_depth = qd
+
+
+def _quant_body(it, e, env, universal, args, lam, names, cenv, consts, guard, qd):
+    """bound variables get canonical names (q.<parameter>.<depth>): the same clause evaluated twice yields the
+    identical term, so an assumed postcondition and the goal it implies match syntactically"""
+    from .interp import Env
+    ctx = it.ctx
+
+    def bound(sort, hint):
+        return z3.Const('q.%s.%d' % (hint, qd), sort)
     if len(args) == 2:
         coll = it.eval(args[0], env)
         items = concrete_items(it, coll)
@@ -1826,7 +1841,7 @@ def _quant(it, e, env, universal):
             coll = VDict(arr=PV.dvals(coll.t))
         if isinstance(coll, (VKeys, VDict)):
             # keys of symbolically indexed dicts are strings: quantify over the index itself
-            k = ctx.fresh(z3.StringSort(), names[0])
+            k = bound(z3.StringSort(), names[0])
             consts.append(k)
             arr = coll.to_arr() if isinstance(coll, VDict) else coll.arr
             guard.append(arr[k] != pv.PAbsent)
@@ -1834,7 +1849,7 @@ def _quant(it, e, env, universal):
             if len(names) == 2:
                 cenv.set(names[1], SAny(arr[k]))
         elif isinstance(coll, VSet):
-            k = ctx.fresh(z3.StringSort(), names[0])
+            k = bound(z3.StringSort(), names[0])
             consts.append(k)
             guard.append(coll.to_arr()[k])
             cenv.set(names[0], SStr(k))
@@ -1870,7 +1885,7 @@ def _quant(it, e, env, universal):
                         terms.append(pv.as_term_bool(truthy(it.eval(lam.body, penv))))
                         offset = offset + 1
                     else:
-                        i = ctx.fresh(z3.IntSort(), 'qi')
+                        i = bound(z3.IntSort(), 'idx%d' % len(terms))
                         ev = pv.elem_value(coll, part[i]) if typed else SAny(part[i])
                         if len(names) == 2:
                             penv.set(names[0], SInt(z3.simplify(offset + i)))
@@ -1884,7 +1899,7 @@ def _quant(it, e, env, universal):
                 if not terms:
                     return universal
                 return mkbool(z3.And(*terms) if universal else z3.Or(*terms))
-            i = ctx.fresh(z3.IntSort(), 'qi')
+            i = bound(z3.IntSort(), 'idx')
             consts.append(i)
             guard.append(z3.And(i >= 0, i < z3.Length(seq)))
             ev = pv.elem_value(coll, seq[i]) if typed else SAny(seq[i])
@@ -1897,13 +1912,13 @@ def _quant(it, e, env, universal):
         for n in names:
             # naming convention: i*, j*, n* -> Int;  s_* -> Str; otherwise untyped
             if n[0] in 'ijn' and (len(n) == 1 or n[1:].isdigit()):
-                c = ctx.fresh(z3.IntSort(), n)
+                c = bound(z3.IntSort(), n)
                 cenv.set(n, SInt(c))
             elif n.startswith('s_'):
-                c = ctx.fresh(z3.StringSort(), n)
+                c = bound(z3.StringSort(), n)
                 cenv.set(n, SStr(c))
             else:
-                c = ctx.fresh(PV, n)
+                c = bound(PV, n)
                 cenv.set(n, SAny(c))
             consts.append(c)
     body = pv.as_term_bool(truthy(it.eval(lam.body, cenv)))
